@@ -97,7 +97,12 @@ class SmtpRelayClient(RelayPoolClient):
     @current_command(b'[CONNECT]')
     def _connect(self):
         with Timeout(self.connect_timeout):
-            self.socket = self.socket_creator(self.address)
+            try:
+                self.socket = self.socket_creator(self.address)
+            except UnicodeError as exc:
+                # A host name with an empty or over-long label (a null MX):
+                # no connection can be made to it.
+                raise socket.gaierror(socket.EAI_NONAME, str(exc))
         log.connect(self.socket, self.address)
         self.client = self._client_class(self.socket, self.address)
 
